@@ -46,11 +46,13 @@ P = {
  'C11': dict(
   text="Lean theorems: polymod = BIP173 BCH residue, checksum_verifies, convertbits padding rule and round trip, "
        "decode accepts ⇔ Spec.ValidSegwit, encode_decode for all versions/lengths, mixed case rejected, and the code "
-       "distance: any 1–2 substitutions anywhere in a valid ≤90-char address are rejected (detects_le2, kernel "
-       "checked); 3–4 substitutions (detects_le4) use native_decide in Props/C11Native.lean only. Tied by T1 (charset, "
-       "generator read from the AST) and exhaustive single/sampled-or-exhaustive double substitutions.",
-  note=TB + "detects_le4/check3_true/check4_true additionally trust the Lean compiler (native_decide axioms), isolated in one file.",
-  tech="Lean 4 proof (GF(2)-linear algebra of the BCH code; decide +kernel; native_decide for weight 3–4) + tables + correspondence"),
+       "distance: any 1–4 substitutions anywhere in a valid ≤90-char address are rejected (detects_le2, "
+       "detects_le4 — both kernel-checked with the standard axioms: the weight-3/4 bound is reduced to 963 "
+       "`decide +kernel` shard theorems over a generated, untrusted look-up table). Truncation/extension/insertion/"
+       "deletion are covered by the run only (the BCH code guarantees nothing there). Tied by T1 (charset, generator "
+       "read from the AST) and exhaustive single/sampled-or-exhaustive double substitutions.",
+  note=TB + "No native_decide anywhere.",
+  tech="Lean 4 proof (GF(2)-linear algebra of the BCH code; sharded decide +kernel for the distance bound) + tables + correspondence"),
  'C12': dict(
   text="Lean theorems over all selection histories and all strings: SelectParams invariant (params = coreparams = last "
        "selected), round trip script→address→text→address→script for 4 templates × 4 chains with the prescribed "
